@@ -334,6 +334,12 @@ func streamEngine(t *testing.T, o *Out, p EngProfile) {
 			if p.Wide {
 				// very wide nodes: the storage layer's own page loops and probes send several statements per call
 				stmtFaults(c)
+				// ... and the same node under a width limit that it exceeds (what the storage layer does once the
+				// limit is reached is code of its own)
+				wc := *c
+				wc.Width = 100
+				emit(&wc, "w", false)
+				stmtFaults(&wc)
 			}
 			// more queries on the same state
 			for j := 0; j < 3 && !env.hung; j++ {
